@@ -177,6 +177,9 @@ func keyEqual(a, b any) bool {
 	case string:
 		y, ok := b.(string)
 		return ok && x == y
+	case bool:
+		y, ok := b.(bool)
+		return ok && x == y
 	}
 	return false
 }
@@ -303,7 +306,7 @@ func genC03(t *rapid.T) *Bundle {
 	mixed := rapid.IntRange(0, 4).Draw(t, "mixed_keys") == 0
 	keyDom := []any{nil, "a", "b"}
 	if mixed {
-		keyDom = []any{nil, "1", float64(1), "<nil>", "a"}
+		keyDom = []any{nil, "1", float64(1), "<nil>", "a", true, "true", false}
 	}
 	table := []any{}
 	for i := 0; i < n; i++ {
